@@ -138,6 +138,7 @@ type Exec struct {
 	Instrs      int
 	Paths       int
 	BranchQueries int
+	BranchSliceHops int
 	Lazy bool
 	ModelHits int
 	models []*Model
@@ -153,6 +154,7 @@ type Exec struct {
 	Trace       bool
 	LenOfSym    map[int]*Term
 	CurHarness  string
+	noIntrinsicOnce *ssa.Function
 	Deadline    time.Time
 	FreshDefs   map[string]*FreshDef
 	ContractsUsed []string
@@ -559,6 +561,9 @@ func (e *Exec) ensureInit(st *State, pkg *ssa.Package) {
 	if !e.initAllowed(path) {
 		return
 	}
+	lookupMu.Lock()
+	pkg.Build()
+	lookupMu.Unlock()
 	initFn := pkg.Func("init")
 	if initFn == nil || initFn.Blocks == nil {
 		return
@@ -606,6 +611,12 @@ func (e *Exec) CallFunction(st *State, fn *ssa.Function, args []Value, depth int
 	return e.callFn(st, fn, args, nil, depth, nil)
 }
 
+// runBody interprets the function body even if an intrinsic exists for it.
+func (e *Exec) runBody(st *State, fn *ssa.Function, args []Value, depth int) []Outcome {
+	e.noIntrinsicOnce = fn
+	return e.callFn(st, fn, args, nil, depth, nil)
+}
+
 func (e *Exec) callFn(st *State, fn *ssa.Function, args []Value, env []Value, depth int, recoverable *panicRec) (outs []Outcome) {
 	if depth > e.MaxDepth {
 		return []Outcome{{Kind: OutError, St: st, Why: "call depth exceeded at " + fn.String()}}
@@ -620,7 +631,9 @@ func (e *Exec) callFn(st *State, fn *ssa.Function, args []Value, env []Value, de
 		e.logf("init %s", fn.Pkg.Pkg.Path())
 	}
 	// intrinsics
-	if intr := e.lookupIntrinsic(st, fn); intr != nil {
+	skipIntr := e.noIntrinsicOnce == fn
+	e.noIntrinsicOnce = nil
+	if intr := e.lookupIntrinsic(st, fn); intr != nil && !skipIntr {
 		return e.runIntrinsic(intr, st, fn, args, depth)
 	}
 	if fn.Blocks == nil && fn.Pkg != nil {
